@@ -1443,6 +1443,8 @@ uint32_t NifFile::CloneNamedNode(const std::string& nodeName, NifFile* srcNif) {
 	destNode->name.get() = nodeName;
 	destNode->collisionRef.Clear();
 	destNode->controllerRef.Clear();
+	destNode->extraDataRefs.Clear();
+	destNode->propertyRefs.Clear();
 	destNode->childRefs.Clear();
 	destNode->effectRefs.Clear();
 
